@@ -151,7 +151,7 @@ theorem getComp_ok_cases (db : List Entry) (k : Str) (f : Str) (h : getComp db k
       | none => simp only [hc] at h; cases h
       | some c =>
         simp only [hc, Except.ok.injEq] at h
-        exact ⟨e, rfl, by rw [← h]⟩
+        exact ⟨e, rfl, by rw [← h, hc]⟩
 
 /-- an entry without a stored mass and without a composition: `UnknownModificationMassError` -/
 theorem entry_without_mass_raises (T : Tables) (e : Entry) (mono : Bool)
